@@ -18,41 +18,60 @@ ObsRefresh(e) == IF e.panicked THEN "panicked" ELSE IF e.ok THEN "ok" ELSE IF e.
 \* [set |-> FALSE] or [set |-> TRUE, c |-> r, r |-> r, m |-> r] with r a probe result as above.
 \* A probe that panicked counts as "error" here: panics are judged on the explicit operations.
 Soft(o) == IF o = "panicked" THEN "error" ELSE o
+Short(t) == t.kind = "sealed" /\ t.ttl = "short"
 StMatches(st, sl) ==
   \A s \in Slots :
      IF sl[s] = None THEN ~st[s].set
      ELSE /\ st[s].set
-          /\ LET pr == Projection(Self, sl[s])
-             IN /\ Soft(ObsEnforce(st[s].c)) = pr.c
-                /\ Soft(ObsEnforce(st[s].r)) = pr.r
-                /\ Soft(ObsEnforce(st[s].m)) = pr.m
+          /\ LET ok(t) == LET pr == Projection(Self, t)
+                           IN /\ Soft(ObsEnforce(st[s].c)) = pr.c
+                              /\ Soft(ObsEnforce(st[s].r)) = pr.r
+                              /\ Soft(ObsEnforce(st[s].m)) = pr.m
+             IN IF Short(sl[s]) THEN ok([sl[s] EXCEPT !.exp = "future"]) \/ ok([sl[s] EXCEPT !.exp = "past"])
+                ELSE ok(sl[s])
 
 Path(e) == e.path      \* JSON array of strings -> tuple of strings
+
+\* Real time.  For a token with a short expiry the driver logs where the call fell relative to the expiry,
+\* with a safety margin: "alive", "expired", or "edge" (too close to tell: the event is not judged).  The
+\* model's own view (Expire at every "wait") must agree; where the machine was too slow it does not, and the
+\* clock wins.
+AtCall(t, e) == IF t.kind = "sealed" /\ t.ttl = "short" /\ Has(e, "fresh") /\ e.fresh \in {"alive", "expired"}
+                THEN [t EXCEPT !.exp = IF e.fresh = "alive" THEN "future" ELSE "past"]
+                ELSE t
+Edge(t, e) == t.kind = "sealed" /\ t.ttl = "short" /\ Has(e, "fresh") /\ e.fresh = "edge"
+
 
 \* ---- model step ------------------------------------------------------------------
 Post(e, sl) ==
   CASE e.op = "reset"   -> [s \in Slots |-> None]
-    [] e.op = "gen"     -> IF e.ok THEN [sl EXCEPT ![e.slot] = Seal(e.key, e.role, ExpOf(e.dur))] ELSE sl
-    [] e.op = "refresh" -> IF ObsRefresh(e) = "ok"
-                           THEN [sl EXCEPT ![e.dst] = IF sl[e.src].kind = "sealed" THEN Refreshed(sl[e.src], e.dur) ELSE Junk("random")]
-                           ELSE sl
+    [] e.op = "gen"     -> IF e.ok THEN [sl EXCEPT ![e.slot] = Issue(e.key, e.role, e.dur)] ELSE sl
+    [] e.op = "refresh" -> LET src == AtCall(sl[e.src], e)
+                               s1 == [sl EXCEPT ![e.src] = src]
+                           IN IF ObsRefresh(e) = "ok"
+                              THEN [s1 EXCEPT ![e.dst] = IF src.kind = "sealed" THEN Refreshed(src, e.dur) ELSE Junk("random")]
+                              ELSE s1
+    [] e.op = "enforce" -> [sl EXCEPT ![e.slot] = AtCall(sl[e.slot], e)]
+    [] e.op = "wait"    -> [s \in Slots |-> Expire(sl[s])]
     [] e.op = "tamper"  -> [sl EXCEPT ![e.slot] = Damaged(sl[e.slot], e.cls)]
     [] e.op = "junk"    -> [sl EXCEPT ![e.slot] = Junk(e.cls)]
     [] OTHER            -> sl
 
 Verdict(e, pre, post) ==
      (IF e.op = "enforce"
-      THEN LET want == EnforceOutcome(Self, pre[e.slot], Path(e), e.method)
+      THEN LET want == EnforceOutcome(Self, AtCall(pre[e.slot], e), Path(e), e.method)
                got  == ObsOfEvent(e)
-           IN    Clause("C35:no_panic", got # "panicked")
+           IN IF Edge(pre[e.slot], e) THEN Clause("C35:no_panic", got # "panicked") ELSE
+                 Clause("C35:no_panic", got # "panicked")
               \o Clause("C35:honoured_iff_own_unaltered_unexpired_and_policy_allows", (got = "allowed") = (want = "allowed"))
               \o Clause("C35:expired_token_gets_expiry_error", want = "expired" => got = "expired")
               \o Clause("C35:malformed_or_foreign_token_gets_error", want = "error" => got = "error")
       ELSE <<>>)
   \o (IF e.op = "refresh"
-      THEN LET want == RefreshOutcome(Self, pre[e.src])
+      THEN LET want == RefreshOutcome(Self, AtCall(pre[e.src], e))
                got  == ObsRefresh(e)
-           IN    Clause("C35:no_panic", got # "panicked")
+           IN IF Edge(pre[e.src], e) THEN Clause("C35:no_panic", got # "panicked") ELSE
+                 Clause("C35:no_panic", got # "panicked")
               \o Clause("C35:refresh_only_of_own_unaltered_unexpired", (got = "ok") = (want = "ok"))
               \o Clause("C35:refresh_cannot_revive_expired", want = "expired" => got = "expired")
               \o Clause("C35:refresh_of_malformed_or_foreign_token_gets_error", want = "error" => got = "error")
@@ -62,8 +81,14 @@ Verdict(e, pre, post) ==
       THEN Clause("C35:stored_tokens_keep_role_and_expiry", StMatches(e.st, post))
       ELSE <<>>)
 
-Note(l_, e) == IF e.op = "gen" /\ ~e.ok
-               THEN <<[line |-> l_, scn |-> e.scn, note |-> "token_not_issued", op |-> e.op]>> ELSE <<>>
+Note(l_, e) ==
+  IF e.op = "gen" /\ ~e.ok
+  THEN <<[line |-> l_, scn |-> e.scn, note |-> "token_not_issued", op |-> e.op]>>
+  ELSE IF e.op \in {"enforce", "refresh"} /\ Has(e, "fresh") /\ e.fresh \in {"alive", "expired", "edge"}
+          /\ LET t == slots[IF e.op = "enforce" THEN e.slot ELSE e.src]
+             IN Short(t) /\ (e.fresh = "edge" \/ (e.fresh = "alive") # (t.exp = "future"))
+  THEN <<[line |-> l_, scn |-> e.scn, note |-> "call_not_on_the_modelled_side_of_a_short_expiry", op |-> e.op]>>
+  ELSE <<>>
 
 TInit == l = 1 /\ bad = <<>> /\ notes = <<>> /\ slots = [s \in Slots |-> None] /\ last = [op |-> "init"]
 
